@@ -735,8 +735,8 @@ def linen_vs_nnx(case, ctx):
       if opt & 4:
         o['kernel_dilation'] = 2 if opt & 8 else (2,)
       if opt & 16:
-        o['mask'] = jnp.asarray(rng.integers(0, 2, size=(k, cin // g, fo)
-                                             ).astype(np.float64))
+        o['mask'] = jnp.asarray(rng.integers(0, 3, size=(k, cin // g, fo)
+                                             ).astype(np.float64) * 0.5)
       lm = nn.Conv(fo, (k,), **o, **dt)
       nm = nnx.Conv(cin, fo, (k,), rngs=rn, **o, **dt)
     else:
@@ -829,7 +829,20 @@ def linen_vs_nnx(case, ctx):
       yl, upd = lm.apply(v, xj, mutable=['batch_stats'], **call_kw)
     else:
       yl, upd = lm.apply(v, xj), {}
+    before_n = {p_: np.asarray(v_.value).copy() for p_, v_ in
+                nnx.to_flat_state(nnx.state(nm, nnx.Param))} if hasattr(
+                    nnx, 'to_flat_state') else {}
     yn = nm(xj, **call_kw)
+    after_n = {p_: np.asarray(v_.value) for p_, v_ in
+               nnx.to_flat_state(nnx.state(nm, nnx.Param))} if before_n else {}
+    require(all(np.array_equal(before_n[p_], after_n[p_]) for p_ in before_n),
+            lambda: f'{layer}: a forward pass changed the NNX layer\'s own '
+            f'parameters (options {sorted(o)}); the Linen layer has no such '
+            'state update')
+    if layer != 'batchnorm':
+      yn2 = nm(xj, **call_kw)
+      require(close(yn, yn2, dict(rtol=0, atol=0)), lambda: f'{layer}: the '
+              'second call of the same NNX layer gives a different output')
   require(close(yl, yn), lambda: f'{layer}: NNX output differs from Linen on '
           f'the same parameters; max diff '
           f'{np.max(np.abs(np.asarray(yl) - np.asarray(yn))) if np.shape(yl) == np.shape(yn) else (np.shape(yl), np.shape(yn))}')
